@@ -287,7 +287,7 @@ CHECKS.append(worldedit.make_check('C08'))
 
 # ------------------------------------------------------------------ every cell of a very wide / very tall world
 
-SWEEP_LENGTHS = {'quick': [1030, 1100], 'thorough': [1030, 1100, 2050, 2100, 4100]}
+SWEEP_LENGTHS = {'quick': [1030, 1100], 'thorough': [1030, 1100, 2050, 2100, 4100, 65600]}
 
 
 def enum_sweep(tier, shard, nshards):
@@ -333,7 +333,7 @@ def oracle_sweep(case, ctx):
 
 
 CHECKS.append(Check('coordinate_sweep', oracle_sweep, enumerate=enum_sweep, shards={'quick': 16, 'thorough': 16}, exhaustive=True,
-                    rule='worlds of 2 x L and L x 2 cells (L = 1030, 1100; thorough also 2050, 2100, 4100) with a sparse wall pattern: the agent on every free cell x 4 headings x forward/left move, in place',
+                    rule='worlds of 2 x L and L x 2 cells (L = 1030, 1100; thorough also 2050, 2100, 4100, 65600) with a sparse wall pattern: the agent on every free cell x 4 headings x forward/left move, in place',
                     required=['length:1030', 'length:1100']))
 
 
